@@ -41,12 +41,13 @@ CLAIMED = {
          "(queue empty/non-empty, one wait per run, time-outs fire only while parked); atomicity of code between two synchronisation operations of one thread.",
     technique="finite-state reflection (closed reachable set) in Coq + schedule enumeration with trace acceptance"),
  "C13": dict(category="proof", design_ref="7 (C13)",
-    text="13 Coq theorems (all closed; every oracle, state, terminator, count, timeout, call sequence) on an executable model of the TCP/UDP/serial buffered read loops with an "
-         "adversarial device oracle: byte conservation, read = exactly n, read_until = shortest terminated prefix, time-out consumes nothing, read_until_timeout <= n, closed transport "
-         "never touches the device, wrong-state open/close refused. Tie: per-call differential execution (results and the exact stand-in call list incl. settimeout arguments) of the "
+    text="19 Coq theorems (all closed; every oracle, state, terminator, count, timeout, call sequence) on an executable model of the TCP/UDP/serial transports (buffered read loops with "
+         "deadline arithmetic, discard, open/close, write) with an adversarial device oracle: byte conservation (nothing lost/duplicated/reordered, discarded bytes never resurface), "
+         "read = exactly n, read_until = shortest terminated prefix, time-out consumes nothing, read_until_timeout <= n, closed transport never reads or writes, written bytes reach the "
+         "device unchanged and in order, wrong-state open/close refused, model fuel always sufficient for all three kinds. Tie: per-call differential execution (results and the exact stand-in call list incl. settimeout arguments) of the "
          "real QMI_TcpTransport/QMI_UdpTransport/QMI_SerialTransport with scripted socket/serial and a virtual clock; independent conservation/contract oracle.",
     note="Trusted: Coq kernel+vm_compute; hand model; harness stand-ins (define what a device schedule is); TCP = FIFO stream, UDP datagrams <= 4096 bytes, pyserial read(k) <= k bytes. "
-         "Serial fuel sufficiency is checked per case, not proved. The UDP read_until_timeout defect found here was repaired (fix: commit).",
+         "The serial fuel theorem assumes the clock advances dt >= 0. The UDP read_until_timeout defect found here was repaired (fix: commit).",
     technique="Coq induction over fuel/oracle with a stream-conservation invariant; differential testing with scripted device"),
  "C16": dict(category="proof", design_ref="7 (C16)",
     text="16 Coq theorems (all closed; all texts, types and data): the comment scanner is exactly the regex language and cuts each line at its first '#' outside a string; duplicate keys "
@@ -94,15 +95,17 @@ CLAIMED = {
          "correspondence/oracle only.",
     technique="executable Gallina codecs, induction and round-trip/soundness proofs, finite CRC sweeps, differential testing"),
  "C12": dict(category="proof", design_ref="7 (C12)",
-    text="9 Coq theorems (all closed) over ALL finite operation-and-fault histories of an executable model of the context and singleton lifecycle (exception monad with catch exactly where "
+    text="13 Coq theorems (all closed); 9 over ALL finite operation-and-fault histories of an executable model of the context and singleton lifecycle (exception monad with catch exactly where "
          "the code has try/except-log): table invariant (unique names, no reservation left, handlers = live names, one worker thread per live object, nothing released twice), duplicate "
          "refused without change, rollback after a failed constructor, remove, stop reclaims everything whatever stop handlers or release steps raise, failed start leaves nothing "
-         "behind at QMI_Context and qmi.start level (proved for the repaired behaviour, refuted by witness for the pinned tree). Tie: real QMI_Context / qmi.start in a forked child "
+         "behind at QMI_Context and qmi.start level (proved for the repaired behaviour, refuted by witness for the pinned tree); 4 for an operation of another thread racing with stop() "
+         "(remove||stop, make||stop): proved for every interleaving of an atomic-region model on 64 listed finite instances (<= 3 objects) by closed-reachable-set reflection, refuted for the "
+         "pinned tree's make||stop and for stop() dropping reservations. Tie: real QMI_Context / qmi.start in a forked child "
          "under the deterministic scheduler with the fake network and injected constructor/release/stop-handler/bind/peer faults; after every operation exception class, live QMI "
          "threads, handler and object maps, sockets, singleton, release and stop-handler logs are compared step by step with the model (1.6k history-schedule pairs quick, 26k thorough).",
-    note="Trusted: Coq kernel+vm_compute; hand-transcribed model; dsched fake loop/network; harness stubs; histories are sequential (interleavings inside one operation are sampled). "
-         "The failed-start defect (singleton stuck, threads and ports leaked) found here was repaired by a fix: commit.",
-    technique="inductive invariant over histories with an exception monad + step-by-step observation correspondence under dsched"),
+    note="Trusted: Coq kernel+vm_compute; hand-transcribed model; dsched fake loop/network; harness stubs; the concurrent clause is weaker than the sequential ones (finite instances, one racing operation, sampled schedules with line-level yields + DFS with <= 2 preemptions; "
+         "make||make, remove||remove and races with start are not covered). The failed-start defect and the make||stop registration race (singleton stuck, threads and ports leaked) found here were repaired by fix: commits.",
+    technique="inductive invariant over histories with an exception monad + finite LTS reflection for the concurrent clause + observation/trace correspondence under dsched"),
  "C19": dict(category="proof", design_ref="7 (C19)",
     text="5 generic Coq theorems (all closed): the abstract post analyser of the open/close effect language is sound AND complete for every fault placement; if the boolean conditions "
          "ok_open/ok_close hold then for every sequence of open/close/is_open calls and every fault placement is_open() = link held, a failing open leaves (closed, released) or "
@@ -167,25 +170,26 @@ CLAIMED = {
          "The defect found (property getters evaluated before the marker check) was repaired by a fix: commit.",
     technique="MRO member-table model, generic theorem + per-class reflection, translator, differential probing of the real handlers"),
  "C07": dict(category="proof", design_ref="7 (C07)",
-    text="15 Coq theorems (all closed) on an executable transition system of SignalManager (one handler or lock region per step; four tables keyed by the real dot-joined strings and tested "
+    text="16 Coq theorems (all closed) on an executable transition system of SignalManager (one handler or lock region per step; four tables keyed by the real dot-joined strings and tested "
          "with startswith; delivery log; FIFO channels between two full contexts): for every input sequence of a context (any interleaving of threads at lock-region granularity, any peer "
          "messages) each publication gives exactly one record with the published fields to exactly the receivers stored for that signal when the snapshot is taken; at most one message per "
          "subscribed peer (exactly one unless the peer vanished) and on delivery exactly one record per receiver subscribed there; no record of a publication snapshotted after unsubscribe; "
-         "per-thread order (append-only logs, FIFO channels); valid names contain no '.', dot-joined keys are injective and the prefix tests select exactly the intended entries. "
+         "per-thread order locally and, end to end over two contexts with FIFO channels and connects/closes at any position, at every remote receiver (C07_remote_order); valid names contain no '.', dot-joined keys are injective and the prefix tests select exactly the intended entries. "
          "Tie: H2 message-level simulation of real SignalManager instances on stub contexts with harness-owned FIFO queues (exhaustive short and random histories on 1-3 contexts, other "
          "operations run re-entrantly at every lock-free point of a running publish), compared label by label with the model; real QMI_Context thread schedules under dsched; independent "
          "event-log oracle (each receiver queue = projection of the global publish/subscribe log).",
-    note="Trusted: Coq kernel+vm_compute; hand model; H2 harness network and dsched; fresh request ids; atomic lock regions; honest peers. End-to-end remote order is the composition of "
-         "C07_channel_fifo and C07_deliver_exactly_once, not one lemma. Queue overflow (C09) and pickling are outside.",
+    note="Trusted: Coq kernel+vm_compute; hand model; H2 harness network and dsched; fresh request ids; atomic lock regions; honest peers. Half of the real-context thread schedules add line-level switch points inside five SignalManager "
+         "methods. Queue overflow (C09) and pickling are outside.",
     technique="inductive invariants over an executable transition system; H2 message simulation + deterministic scheduler"),
  "C08": dict(category="proof", design_ref="7 (C08)",
-    text="12 Coq theorems (all closed). Main theorem C08_quiescent, proved in full for two complete contexts and every finite history (subscribe, unsubscribe incl. re-subscribe while the "
+    text="14 Coq theorems (all closed). Main theorem C08_quiescent, proved in full for two complete contexts and every finite history (subscribe, unsubscribe incl. re-subscribe while the "
          "unsubscribe is pending, publish, remove object, deliver, connect, close at any position, each end closing on its own): whenever nothing is in flight and no request is outstanding, "
          "a context lists the peer as subscriber of a signal exactly when some receiver there is subscribed — via a per-signal protocol invariant proved inductive over the two-node system. "
+         "The same equivalence is proved for a publisher context with any number of subscriber contexts (star topology) in the N-context system (C08_quiescent_star). "
          "Also: table consistency on one node for arbitrary (even hostile) inputs; a reply always answers a pending request; unknown publisher => subscription error and nothing stored at "
          "either end; cleanup after object removal and after peer loss at both ends; every blocked subscribe is accounted for through every step and returns once channels are empty. "
          "Tie: as C07 (about 2400 cases per run, probe publications at quiescent points, 900 schedules of blocked subscribers while the peer disconnects / stops / removes the publisher).",
-    note="Trusted: as C07. The theorem covers two contexts at handler granularity; three-context histories are covered by correspondence and oracle only; a reconnect is assumed only after both "
+    note="Trusted: as C07. Proof covers two contexts and star topologies at handler granularity; a context subscribed to several publisher contexts at once is covered by correspondence and oracle only; a reconnect is assumed only after both "
          "ends have closed. One defect below handler granularity (removal notice overtaking the subscribe reply: stale subscription) was found by the thread-level oracle and repaired by a fix: commit.",
     technique="per-signal protocol invariant over a two-node transition system; H2 simulation + deterministic scheduler"),
  "C17": dict(category="proof", design_ref="7 (C17)",
